@@ -454,3 +454,135 @@ Proof.
   rewrite apply_rebuild by (apply wf_shape_of; exact Ha).
   apply rebuild_ext. intros a c. rewrite hits_ups_cd by exact Hp. ring.
 Qed.
+
+(* ------------------------------------------------------------------------------------------ *)
+(** * Reading entries of a table in closed form *)
+
+Lemma mem_others b al a : mem b (others al a) = mem b al && negb (N.eqb b a).
+Proof.
+  unfold others. induction al as [|x al IH]; simpl; [reflexivity|].
+  destruct (N.eqb_spec x a) as [E|E]; simpl.
+  - rewrite IH. subst. destruct (N.eqb_spec b a); simpl; [rewrite andb_false_r; reflexivity | reflexivity].
+  - rewrite IH. destruct (N.eqb_spec b x); simpl; [|reflexivity].
+    subst. destruct (N.eqb_spec x a); [contradiction | reflexivity].
+Qed.
+
+Lemma rget_map (h : N -> Z) ks b :
+  rget (map (fun c => (c, h c)) ks) b = if mem b ks then Some (h b) else None.
+Proof.
+  induction ks as [|x ks IH]; simpl; [reflexivity|].
+  rewrite (N.eqb_sym b x). destruct (N.eqb_spec x b); simpl; [subst; reflexivity | exact IH].
+Qed.
+
+Lemma tget_row_rebuild f (g : N -> list N) l a :
+  tget_row (rebuild f (map (fun x => (x, g x)) l)) a
+  = if mem a l then Some (map (fun b => (b, f a b)) (g a)) else None.
+Proof.
+  induction l as [|x l IH]; simpl; [reflexivity|].
+  rewrite (N.eqb_sym a x). destruct (N.eqb_spec x a); simpl; [subst; reflexivity | exact IH].
+Qed.
+
+Lemma tget_rebuild f al a b :
+  tget (rebuild f (shape_of al)) a b
+  = if mem a al && mem b al && negb (N.eqb b a) then Some (f a b) else None.
+Proof.
+  unfold tget, shape_of. rewrite tget_row_rebuild.
+  destruct (mem a al); simpl; [|reflexivity].
+  rewrite rget_map, mem_others. reflexivity.
+Qed.
+
+Lemma tget_rebuild_some f al a b : In a al -> In b al -> a <> b ->
+  tget (rebuild f (shape_of al)) a b = Some (f a b).
+Proof.
+  intros Ha Hb Hab. rewrite tget_rebuild.
+  apply mem_In in Ha. apply mem_In in Hb. rewrite Ha, Hb.
+  destruct (N.eqb_spec b a); [subst; contradiction | reflexivity].
+Qed.
+Lemma tget_rebuild_dom f al a b : tget (rebuild f (shape_of al)) a b <> None ->
+  In a al /\ In b al /\ a <> b.
+Proof.
+  rewrite tget_rebuild. intros H.
+  destruct (mem a al) eqn:Ea; simpl in H; [|congruence].
+  destruct (mem b al) eqn:Eb; simpl in H; [|congruence].
+  destruct (N.eqb_spec b a); simpl in H; [congruence|].
+  apply mem_In in Ea. apply mem_In in Eb. repeat split; try assumption. congruence.
+Qed.
+
+(* ------------------------------------------------------------------------------------------ *)
+(** * pw counts voters of the expanded profile; regrouping *)
+
+Lemma filter_repeat {X} (f : X -> bool) x n :
+  filter f (repeat x n) = if f x then repeat x n else [].
+Proof.
+  induction n; simpl; [destruct (f x); reflexivity|].
+  rewrite IHn. destruct (f x); reflexivity.
+Qed.
+
+Lemma pw_voters p a b :
+  pw p a b = Z.of_nat (length (filter (fun o => above o a b) (expand p))).
+Proof.
+  unfold expand. induction p as [|[o k] p IH]; simpl; [reflexivity|].
+  rewrite filter_app, app_length, Nat2Z.inj_add, <- IH, filter_repeat.
+  destruct (above o a b); simpl; [rewrite repeat_length, N_nat_Z; reflexivity | reflexivity].
+Qed.
+
+Lemma filter_perm {X} (f : X -> bool) l1 l2 : Permutation l1 l2 -> Permutation (filter f l1) (filter f l2).
+Proof.
+  induction 1; simpl.
+  - constructor.
+  - destruct (f x); [constructor|]; assumption.
+  - destruct (f x), (f y); try apply perm_swap; try apply Permutation_refl.
+  - eapply Permutation_trans; eassumption.
+Qed.
+
+Lemma pw_regroup p p' a b : Permutation (expand p) (expand p') -> pw p a b = pw p' a b.
+Proof.
+  intros H. rewrite !pw_voters. f_equal. apply Permutation_length. apply filter_perm. exact H.
+Qed.
+
+(* ------------------------------------------------------------------------------------------ *)
+(** * has_condorcet *)
+
+Lemma wf_orders_nodup i : wf_inst i -> orders_nodup (mult i).
+Proof.
+  intros [_ [_ [_ H]]]. unfold orders_nodup. eapply Forall_impl; [|exact H].
+  intros ok [[Hn _] _]. exact Hn.
+Qed.
+Lemma wf_alts_nodup i : wf_inst i -> NoDup (alts i).
+Proof. intros [_ [H _]]. exact H. Qed.
+
+Definition beats (weak : bool) (p : list (order * N)) (a b : N) : Prop :=
+  if weak then 0 <= margin p a b else 0 < margin p a b.
+
+Lemma in_others b al a : In b (others al a) <-> In b al /\ b <> a.
+Proof.
+  unfold others. rewrite filter_In. split; intros [H1 H2]; split; try exact H1.
+  - intros E. subst. rewrite N.eqb_refl in H2. discriminate.
+  - destruct (N.eqb_spec b a); [contradiction | reflexivity].
+Qed.
+
+Lemma condorcet_rebuild weak f al :
+  existsb (fun ar => row_ok weak (snd ar)) (rebuild f (shape_of al)) = true
+  <-> exists a, In a al /\ forall b, In b al -> b <> a ->
+        if weak then 0 <= f a b else 0 < f a b.
+Proof.
+  unfold rebuild, shape_of. rewrite map_map, existsb_map. simpl. rewrite existsb_exists.
+  split.
+  - intros [a [Ha Hrow]]. exists a. split; [exact Ha|]. intros b Hb Hba.
+    unfold row_ok in Hrow. rewrite forallb_map in Hrow. simpl in Hrow. rewrite forallb_forall in Hrow.
+    specialize (Hrow b (proj2 (in_others b al a) (conj Hb Hba))).
+    destruct weak; [apply Z.leb_le | apply Z.ltb_lt]; exact Hrow.
+  - intros [a [Ha Hall]]. exists a. split; [exact Ha|].
+    unfold row_ok. rewrite forallb_map. simpl. apply forallb_forall. intros b Hb.
+    apply in_others in Hb. destruct Hb as [Hb Hba]. specialize (Hall b Hb Hba).
+    destruct weak; [apply Z.leb_le | apply Z.ltb_lt]; exact Hall.
+Qed.
+
+Theorem condorcet_correct i weak : wf_inst i -> is_ordinal (data_type i) = true ->
+  exists v, has_condorcet i weak = Ok v /\
+   (v = true <-> exists a, In a (alts i) /\ forall b, In b (alts i) -> b <> a -> beats weak (mult i) a b).
+Proof.
+  intros Hwf Ht. unfold has_condorcet. rewrite Ht. eexists. split; [reflexivity|].
+  rewrite (condorcet_table_closed i (wf_alts_nodup i Hwf) (wf_orders_nodup i Hwf)).
+  rewrite condorcet_rebuild. unfold beats. reflexivity.
+Qed.
